@@ -302,6 +302,21 @@ PENDING = {}
 # Tie by regeneration (harness/py2coq.py): which functions' control flow is regenerated from the source on every run
 # and proved equal to the model functions (Props/CxxTie.v).  Appended to the claim of the property.
 TIES = {
+    "C01": ("Props/C01Tie.v", 3, "tokenize_deb822_file (generator over the buffering line stream: peek/peek_at/takewhile with "
+            "the two lambdas asserted literally, enumerate over the shared iterator, the field-name cache as an "
+            "association list) — equal to the model tokenizer for EVERY choice of the three character classes, hence "
+            "lossless on both input forms", "the two regex leaves (pattern text / generated name classes asserted), token "
+            "constructors (= the model's mk_token), BufferingIterator methods (source hash asserted)"),
+    "C02": ("Props/C02Tie.v", 17, "Deb822._skip_useless_lines, split_gpg_and_payload (list and threaded-iterator forms), "
+            "gpg_stripped_paragraph, validate_input, __setitem__, _internal_parser (fields=None), the constructor path "
+            "up to the hand-written except EOFError, get_as_string, _dump_format, _dump_str (guard: distinct keys, "
+            "established by the reader and kept by assignment)", "the seven regex leaves (pattern texts asserted), "
+            "Deb822Dict get/set/iter as association-list operations, str methods, the codec as identity; dump(fd=...) and "
+            "iter_paragraphs are not regenerated"),
+    "C14": ("Props/C14Tie.v", 11, "BaseVersion._set_full_version, _update_full_version, __setattr__ (including the "
+            "try/except rollback; mutual recursion with _update_full_version on proved-sufficient fuel), __getattr__, "
+            "__init__, __str__", "the re_valid_version leaf (pattern text asserted, classes regenerated), str(), the "
+            "dynamic getattr/setattr of the three private slots as keyed stores"),
     "C03": ("Props/C03Tie.v", 3, "NativeVersion._order, _version_cmp_string, _version_cmp_part",
             "the four regex leaves and int()"),
     "C06": ("Props/C06Tie.v", 9, "ArMember.read, readline, readlines, seek, tell (method mode: the private attributes "
